@@ -76,6 +76,11 @@ impl World for RingBufWorld {
         for x in [0u8, 31, 63, 95] {
             v.push(Cfg { flavour: 0, mode: 3, x, y: BUF_ARRAY, k: 0, sw: 0 });
         }
+        // the largest array type the crate provides (`[T; 65536]`): pre-filled up to 48 below
+        // full after x * 257 rotating push+pop pairs, then bursts of pushes / pops
+        for x in [0u8, 1, 255] {
+            v.push(Cfg { flavour: 0, mode: 4, x, y: BUF_ARRAY, k: 0, sw: 0 });
+        }
         v
     }
     fn enum_configs(&self, tier: Tier) -> Vec<(Cfg, usize)> {
@@ -89,10 +94,13 @@ impl World for RingBufWorld {
         v
     }
     fn specs(&self, cfg: &Cfg) -> Vec<OpSpec> {
-        let bursts = if cfg.mode == 3 { BURST.len() as u8 } else { 0 };
+        let bursts = if cfg.mode == 3 || cfg.mode == 4 { BURST.len() as u8 } else { 0 };
         vec![spec("push", 30, 0, bursts), spec("pop", 24, 0, bursts), spec("observe", 2, 0, 0), spec("drop_value", 6, 3, 0)]
     }
     fn run(&self, cfg: &Cfg, ops: &[Op], run: &mut Run) {
+        if cfg.mode == 4 {
+            return run_big(cfg.x as usize * 257, ops, run);
+        }
         if cfg.mode == 3 {
             let mut ex: Vec<Op> = Vec::new();
             for _ in 0..cfg.x {
@@ -159,6 +167,7 @@ impl World for RingBufWorld {
                 1 => "new()",
                 2 => "with_capacity(), zero-sized elements",
                 3 => "over a user provided RealArray newtype of 96 slots, bursts, indices rotated by x first, x",
+                4 => "over [T; 65536] (largest provided array), pre-filled to 48 below full after 257*x rotations, bursts, x",
                 _ => "with_capacity()",
             },
             cfg.x
@@ -335,6 +344,150 @@ fn zst_drops() -> u64 {
 }
 
 /// The same model with zero-sized elements: identities do not exist, counts must still agree.
+const BIG: usize = 65536;
+const BIG_IDS: usize = 1 << 18;
+
+thread_local! {
+    /// drop counts of the elements of the 64k configuration, indexed by value
+    static BIG_DROPS: std::cell::RefCell<Vec<u8>> = const { std::cell::RefCell::new(Vec::new()) };
+}
+
+/// Element of the 64k configuration: a number with a drop count per number.
+pub struct Num(u32);
+
+impl Drop for Num {
+    fn drop(&mut self) {
+        BIG_DROPS.with(|d| {
+            if let Some(c) = d.borrow_mut().get_mut(self.0 as usize) {
+                *c = c.saturating_add(1);
+            }
+        })
+    }
+}
+
+/// `ArrayBuf<Num, [Num; 65536]>`: values are consecutive numbers, so the FIFO reference is a pair
+/// of counters; every element must be dropped exactly once (by the harness after a pop, or by the
+/// buffer's `Drop`).
+fn run_big(rot: usize, ops: &[Op], run: &mut Run) {
+    tls::reset_history();
+    run.panic_prop = Some("C19");
+    BIG_DROPS.with(|d| {
+        let mut d = d.borrow_mut();
+        d.clear();
+        d.resize(BIG_IDS, 0);
+    });
+    let mut buf: Box<ArrayBuf<Num, [Num; BIG]>> = Box::new(ArrayBuf::new());
+    let (mut next_push, mut next_pop): (u32, u32) = (0, 0);
+    let observe = |buf: &ArrayBuf<Num, [Num; BIG]>, stored: usize, run: &mut Run| {
+        let (len, empty, can, capacity) = (buf.len(), buf.is_empty(), buf.can_push(), buf.capacity());
+        if capacity != BIG {
+            run.violate("C19", "capacity", format!("capacity() == {} for ArrayBuf<_, [_; 65536]>", capacity));
+        } else if len != stored {
+            run.violate("C19", "len", format!("len() == {} but {} elements are stored", len, stored));
+        } else if empty != (stored == 0) {
+            run.violate("C19", "is_empty", format!("is_empty() == {} with {} stored elements", empty, stored));
+        } else if can != (stored < BIG) {
+            run.violate("C19", "can_push", format!("can_push() == {} with {} stored elements and capacity {}", can, stored, BIG));
+        }
+    };
+    // n pushes / pops inside one library call (sequence respects can_push() / is_empty())
+    let burst = |buf: &mut ArrayBuf<Num, [Num; BIG]>, push: bool, n: usize, next_push: &mut u32, next_pop: &mut u32, run: &mut Run| {
+        let (mut np, mut npop) = (*next_push, *next_pop);
+        let mut bad: Option<(u32, u32)> = None;
+        let r = run.call(if push { "push()" } else { "pop()" }, || {
+            for _ in 0..n {
+                if push {
+                    if (np - npop) as usize >= BIG || np as usize >= BIG_IDS {
+                        break;
+                    }
+                    buf.push(Num(np));
+                    np += 1;
+                } else {
+                    if np == npop {
+                        break;
+                    }
+                    let v = buf.pop();
+                    if v.0 != npop && bad.is_none() {
+                        bad = Some((v.0, npop));
+                    }
+                    npop += 1;
+                    drop(v);
+                }
+            }
+        });
+        if r.is_some() {
+            *next_push = np;
+            *next_pop = npop;
+            if let Some((got, want)) = bad {
+                run.violate("C19", "fifo", format!("pop() returned element {} but element {} was inserted first", got, want));
+            }
+        }
+    };
+    observe(&buf, 0, run);
+    for _ in 0..rot {
+        burst(&mut buf, true, 255, &mut next_push, &mut next_pop, run);
+        burst(&mut buf, false, 255, &mut next_push, &mut next_pop, run);
+    }
+    if !run.failed() {
+        burst(&mut buf, true, BIG - 48, &mut next_push, &mut next_pop, run);
+        run.note(|| format!("{} rotations of 255 push+pop, then {} pushes", rot, BIG - 48));
+    }
+    for (i, op) in ops.iter().enumerate() {
+        if run.failed() {
+            break;
+        }
+        run.set_step(i);
+        run.steps += 1;
+        let n = BURST[op.b as usize % BURST.len()];
+        match op.code {
+            OP_PUSH => {
+                burst(&mut buf, true, n, &mut next_push, &mut next_pop, run);
+                run.note(|| format!("push x{} (stored {})", n, next_push - next_pop));
+            }
+            OP_POP => {
+                burst(&mut buf, false, n, &mut next_push, &mut next_pop, run);
+                run.note(|| format!("pop x{} (stored {})", n, next_push - next_pop));
+            }
+            _ => run.noops += 1,
+        }
+        let stored = (next_push - next_pop) as usize;
+        if stored == BIG {
+            run.class(CL_FULL_SEEN);
+        }
+        if next_push as usize > BIG {
+            run.class(CL_WRAPPED);
+        }
+        if !run.failed() {
+            observe(&buf, stored, run);
+        }
+        if run.want_fp && !run.failed() {
+            let mut h = H128::new();
+            h.u64(stored as u64);
+            h.u64(next_push as u64 % BIG as u64);
+            run.fp = h.finish();
+        }
+    }
+    if run.failed() {
+        std::mem::forget(buf);
+        return;
+    }
+    if next_push != next_pop {
+        run.class(CL_DROPPED_NONEMPTY);
+    }
+    if run.call("drop(buffer)", || drop(buf)).is_none() {
+        return;
+    }
+    BIG_DROPS.with(|d| {
+        let d = d.borrow();
+        for v in 0..next_push as usize {
+            if d[v] != 1 {
+                run.violate("C19", "drop-count", format!("element {} was dropped {} times after the buffer is gone (popped up to {}, pushed up to {})", v, d[v], next_pop, next_push));
+                break;
+            }
+        }
+    });
+}
+
 fn run_zst<B: RingBuf<Item = Zst>>(buf: B, cap: usize, ops: &[Op], run: &mut Run) {
     tls::reset_history();
     run.panic_prop = Some("C19");
